@@ -114,7 +114,7 @@ def probes(case, res):
         'joins_waiting_in_stopped_wf': sum(1 for t in joins
                                            if t['state'] == 'WAITING'),
         'reverse': int('reverse' in progcase.case_tags(case)),
-        'refresh_saw_waiting': res.sim.stats.get('probe:refresh_waiting', 0),
+        'refresh_saw_waiting': res.sim.stats.get('probe:refresh_saw_waiting', 0),
     }
 
 
